@@ -23,6 +23,7 @@ CONSTANTS
  UseIds = FALSE
  NodeTeardown = FALSE
  MayVanish = FALSE
+ SweepRelays = TRUE
  Aead = TRUE
  CheckIdent = TRUE
  AutoTimers = TRUE
